@@ -9,6 +9,7 @@ import (
 	"net"
 	"os"
 	"path/filepath"
+	"regexp"
 	"strings"
 	"sync"
 	"time"
@@ -42,6 +43,23 @@ var startFaults = []string{
 	"cred-duplicate",
 	// nothing wrong with the values: the proxy port is taken
 	"listen-in-use",
+	// the textual form of one inline data: value is one the decoder refuses (layoutsRejected: TABs, blanks,
+	// URL alphabet, no padding, percent-encoding, a media type, ...); twice, for its weight in the draw
+	"inline-layout-rejected", "inline-layout-rejected",
+	// one inline value does not begin with the bytes "data:" (white space in front, DATA:) and is taken for a file name
+	"inline-unrecognised",
+}
+
+// inlineFaultKey names the inline value an inline-* fault sits in.
+func inlineFaultKey(c *Case) string {
+	if c.StartFault != "inline-layout-rejected" && c.StartFault != "inline-unrecognised" {
+		return ""
+	}
+	ks := c.inlineKeys()
+	if len(ks) == 0 {
+		return ""
+	}
+	return ks[c.FaultIndex%len(ks)]
 }
 
 // rejectedFlag names the secret-bearing flag whose value the flag parser rejects ("" if the start-up
@@ -107,12 +125,40 @@ func genFailCase(r *core.Rand, i int) *Case {
 		c.BasicAuth = &UserPub{User: "", HasPass: true}
 	case "api-basic-auth-no-user":
 		c.APIBasicAuth = &UserPub{User: "", HasPass: true}
+	case "inline-layout-rejected", "inline-unrecognised":
+		// make sure there is an inline value, then put the fault into one of them
+		switch r.Intn(3) {
+		case 0:
+			c.TLSCert, c.TLSKey = core.Pick(r, []string{"path", "data", "data-base64"}), data()
+		case 1:
+			c.MITM = data()
+		default:
+			c.CACerts = append(c.CACerts, data())
+		}
+		c.FaultIndex = r.Intn(8)
 	}
 	if c.Upstream != "userinfo" {
 		c.UpstreamUser = nil
 	}
+	genLayouts(r, c) // the styles changed
+	switch c.StartFault {
+	case "tls-key-bad-base64":
+		delete(c.Layouts, "tls-key-file") // spoil rewrites the value where it is written
+	case "inline-layout-rejected":
+		c.Layouts = withLayout(c.Layouts, inlineFaultKey(c), core.Pick(r, layoutsRejected))
+	case "inline-unrecognised":
+		c.Layouts = withLayout(c.Layouts, inlineFaultKey(c), core.Pick(r, layoutsUnrecognised))
+	}
 	genSecrets(r, c)
 	return c
+}
+
+func withLayout(m map[string]string, k, layout string) map[string]string {
+	if m == nil {
+		m = map[string]string{}
+	}
+	m[k] = layout
+	return m
 }
 
 // faultyProxyHost is the host:port part of the --proxy value.
@@ -128,11 +174,17 @@ func faultyProxyHost(c *Case, addr string) string {
 }
 
 // faultyPair is the key pair behind --tls-*-file (which = "tls") or --mitm-ca*-file ("mitm").
-func faultyPair(c *Case, which string, seed uint64, ca bool) (cert, key []byte) {
+func faultyPair(c *Case, k int, which string, seed uint64, ca bool) (cert, key []byte) {
 	cert, key = keyPair(seed, ca)
+	if c.KeyAlg == "rsa4096" {
+		cert, key = rsaPair(k, seed, ca)
+	}
 	switch c.StartFault {
 	case which + "-pair-mismatch":
 		_, key = keyPair(seed^0x9e3779b97f4a7c15, ca)
+		if c.KeyAlg == "rsa4096" {
+			_, key = rsaPair(1-k, seed, ca)
+		}
 	case which + "-key-not-pem":
 		key = notPEM(key, cert, c.FaultVariant, seed)
 	case which + "-cert-not-pem":
@@ -354,6 +406,7 @@ func checkFailCase(ctx *core.Ctx, c *Case) {
 	nsec := len(plans[0].Secrets)
 	ctx.Case(c.key(), failed && nsec > 0)
 	ctx.Count("startfail/" + c.StartFault)
+	countLayouts(ctx, c, plans[0])
 	ctx.Count("startfail-log-level/" + c.Level)
 	ctx.Count("startfail-log-format/" + c.Format)
 	ctx.Count("startfail-log-to/" + c.LogTo)
@@ -408,6 +461,40 @@ func compareFailModel(ctx *core.Ctx, c *Case, k int, o *failObservation, p *plan
 			ctx.TraceValidated()
 		}
 	}
+	if key := inlineFaultKey(c); key != "" {
+		// the error of ReadFileOrBase64 for the faulted value = Model.C19.readFileOrBase64 (error text built
+		// from a fixed message or from the decoder's offset, never from the value); the decoder's outcome
+		// is the standard library's, taken independently of the tree
+		flag, idx := key, 0
+		if strings.HasPrefix(key, "cacert-file/") {
+			flag = "cacert-file"
+			fmt.Sscanf(key, "cacert-file/%d", &idx)
+		}
+		if raw := faultedRaw(p, key); raw != "" {
+			kind, off := inlineOutcome(raw)
+			ctx.Count("inline-fault/" + c.layoutOf(flag, idx) + "=" + kind)
+			if kind == "corrupt" || kind == "format" {
+				ans := ctx.Model.MustAsk("C19", "inlineerr", core.HexS(raw), fmt.Sprint(off))
+				want := ""
+				if strings.HasPrefix(ans, "err ") {
+					want = string(core.MustUnHex(strings.TrimPrefix(ans, "err ")))
+				}
+				got := ""
+				for _, r := range parseRecords(c.Format, o.Log) {
+					if r.Msg == "fatal error exiting" {
+						got = r.Attrs["error"]
+					}
+				}
+				// an earlier value of the same start-up may fail first (both values of a pair carry a fault in
+				// no generated case; the wrappers "load certificate: ", "mitm: ...", "load CAs: " are not modelled)
+				if want == "" || !strings.HasSuffix(got, want) {
+					ctx.Disagree("error of the 'fatal error exiting' record for an inline value the decoder refuses ends with Model.C19.readFileOrBase64's error text", c, short(got, 300), ans+" = "+want)
+				} else {
+					ctx.TraceValidated()
+				}
+			}
+		}
+	}
 	if c.StartFault == "cacert-not-pem" {
 		raw := set["cacert-file"].Raws[c.FaultIndex]
 		ans := ctx.Model.MustAsk("C19", "cacerterr", core.HexS(raw))
@@ -429,6 +516,23 @@ func compareFailModel(ctx *core.Ctx, c *Case, k int, o *failObservation, p *plan
 	}
 }
 
+var reInputByte = regexp.MustCompile(`input byte \d+`)
+
+// faultedRaw is the raw value of the inline value named key ("" if the plan has none).
+func faultedRaw(p *plan, key string) string {
+	flag, idx := key, 0
+	if strings.HasPrefix(key, "cacert-file/") {
+		flag = "cacert-file"
+		fmt.Sscanf(key, "cacert-file/%d", &idx)
+	}
+	for _, st := range p.Settings {
+		if st.Flag == flag && idx < len(st.Raws) {
+			return st.Raws[idx]
+		}
+	}
+	return ""
+}
+
 // diffFailRuns compares the output of the two secret assignments line by line.
 func diffFailRuns(ctx *core.Ctx, c *Case, oa, ob *failObservation, pa, pb *plan) {
 	type pair struct{ name, a, b string }
@@ -438,6 +542,24 @@ func diffFailRuns(ctx *core.Ctx, c *Case, oa, ob *failObservation, pa, pb *plan)
 	}
 	if termLog.isolated.Load() {
 		ps = append(ps, pair{"termination-log", oa.TermLog, ob.TermLog})
+	}
+	if key := inlineFaultKey(c); key != "" {
+		// What the decoder makes of a refused layout is a function of the payload's length and characters
+		// (a truncated payload may end on a quantum boundary and decode; the URL alphabet differs from the
+		// standard one only where the payload has '+' or '/'): the two assignments are compared only if the
+		// standard decoder treats both alike.
+		ka, _ := inlineOutcome(faultedRaw(pa, key))
+		kb, _ := inlineOutcome(faultedRaw(pb, key))
+		if ka != kb {
+			ctx.Count("inline-fault/decoder-outcome-differs-between-assignments")
+			return
+		}
+	}
+	// the offset of base64.CorruptInputError is a function of the payload's length (RSA keys of one size
+	// differ by a few characters) and of where the case put the stray character: not part of the comparison
+	for i := range ps {
+		ps[i].a = reInputByte.ReplaceAllString(ps[i].a, "input byte <N>")
+		ps[i].b = reInputByte.ReplaceAllString(ps[i].b, "input byte <N>")
 	}
 	for _, p := range ps {
 		la := sortedLines(canonicalWith(p.a, oa.Dir, nil))
@@ -465,7 +587,7 @@ func diffFailRuns(ctx *core.Ctx, c *Case, oa, ob *failObservation, pa, pb *plan)
 			if len(e[1]) > 0 {
 				y = e[1][0]
 			}
-			ctx.SpecFail("two failing start-ups that differ only in the secrets emit the same "+p.name, cl, c,
+			specFail(ctx, "two failing start-ups that differ only in the secrets emit the same "+p.name, cl, c,
 				"run 0: "+short(x, 400)+"\nrun 1: "+short(y, 400),
 				fmt.Sprintf("after canonicalising timestamps, durations, ports, ids and the run directory the %s of the two runs differ in %d+%d lines%s", p.name, len(e[0]), len(e[1]), startFaultNote(c)))
 		}
